@@ -50,11 +50,12 @@ RANGE_FLUSH = {'_offset', '_put_src'}
 READ_ATTRS = {'loc', 'bloc', 'ln', 'col', 'end_ln', 'end_col', 'bln', 'bcol', 'bend_ln', 'bend_col', 'whole_loc', 'pars', 'own_src',
               'own_lines', 'src', 'lines'}
 
+# key: (module, function, position attributes stored on the element) — not the local name of the element, which a rename changes
 R21_REVIEWED = {
-    ('fst_core', '_Modifying.success', 'c'):
+    ('fst_core', '_Modifying.success', 'end_col_offset+end_lineno'):
         'c is the debug-string Constant of `{expr=}`; its span contains the expression just edited, so the offset walk of that edit '
         'visited (and flushed) it; success() runs directly after that edit with no query in between',
-    ('fst_raw', '_reparse_raw_base', 'a'):
+    ('fst_raw', '_reparse_raw_base', 'col_offset+end_col_offset'):
         'with set_ast=False the detached copy is returned to _reparse_raw_stmtlike, which installs it with stmtlike._set_ast(copya): '
         'the FST objects are re-issued with empty memos (FST.__new__, R2.3d)',
 }
@@ -349,7 +350,7 @@ def check_position_stores(ctx):
                 how = 'memo known empty at the store' if pre_ec else 'covering flush on every normal path to the exit'
                 if not ok:
                     how = 'stale memo may reach the exit' + (' (node no longer addressable after rebinding)' if ex[4] else '')
-                rv = R21_REVIEWED.get((fi.module, fkey, etext))
+                rv = R21_REVIEWED.get((fi.module, fkey, '+'.join(sorted({t.attr for _, t in sts}))))
                 if not ok and rv:
                     ok, how = True, 'reviewed: ' + rv
                 for x in hit:
@@ -369,8 +370,6 @@ SHIFT_OPS = {'insert', 'extend'}
 R22_REVIEWED = {
     ('fst_get_slice', '_remove_arguments_allargs_markers', 'posonlyargs'):
         'the `/` marker is always the last element of posonlyargs (inserted there by _make_arguments_allargs_w_markers via append)',
-    ('fst_get_slice', '_fix_MatchOr', 'patterns'):
-        'executed only when a single pattern is left: the MatchOr node itself is replaced by that pattern through _set_ast',
     ('fst_get_slice', '_remove_MatchMapping_rest_real_node', 'patterns'): 'removes the temporary last element (tail)',
 }
 STR_LIST_FUNCS = ('_get_slice_Global_Nonlocal_names', '_put_slice_Global_Nonlocal_names')   # `names` of Global / Nonlocal are identifier strings
@@ -407,6 +406,28 @@ def list_aliases(fi, node_lists):
     return al
 
 
+def reindex_params(fn) -> set[str]:
+    """Parameters of a helper whose elements it re-indexes: a `for` loop that stores `<elem>.f.pfield = astfield(...)` with the element
+    taken from the parameter (`P[i]`, or the loop runs over `P` / `enumerate(P)` / `range(.., len(P))`)."""
+    if isinstance(fn, ast.Lambda):
+        return set()
+    ps = {a.arg for a in fn.args.posonlyargs + fn.args.args + fn.args.kwonlyargs}
+    out = set()
+    for n in walk_no_nested(fn):
+        if not isinstance(n, ast.For):
+            continue
+        stores = [s_ for s_ in ast.walk(n) if isinstance(s_, ast.Assign) and any(isinstance(t, ast.Attribute) and t.attr == 'pfield' for t in s_.targets)
+                  and isinstance(s_.value, ast.Call) and call_name(s_.value) == 'astfield']
+        if not stores:
+            continue
+        used = {x.id for x in ast.walk(n.iter) if isinstance(x, ast.Name)}
+        for s_ in stores:
+            for t in s_.targets:
+                used |= {x.value.id for x in ast.walk(t) if isinstance(x, ast.Subscript) and isinstance(x.value, ast.Name)}
+        out |= used & ps
+    return out
+
+
 def _is_tail_slice(sl) -> bool:
     return isinstance(sl, ast.Slice) and sl.upper is None and sl.step is None and sl.lower is not None
 
@@ -432,6 +453,7 @@ def reindex_loops(fi, al):
 
 
 def check_links(ctx, F):
+    _REINDEX_CACHE = {}       # per run: in-memory variants of the repository share function keys
     node_lists, str_lists = list_fields(F)
     ctx.rule('R2.2a', 'every pfield (re)index names the field its list really is and the index its element really has', 30)
     ctx.rule('R2.2b', 'every length-changing operation on a child list of a live node is followed by a re-index loop over that list', 25)
@@ -559,10 +581,27 @@ def check_links(ctx, F):
                     good.add(nd.id)
                 elif nd.kind in ('stmt', 'test'):
                     for x in subnodes(cfg, nd):
+                        # the list is handed to a helper that re-indexes that parameter (the loop extracted into a worker)
+                        if isinstance(x, ast.Call) and isinstance(x.func, ast.Name):
+                            for g in ctx.repo.find_funcs(fi.module, x.func.id):
+                                rp = _REINDEX_CACHE.get(g.key)
+                                if rp is None:
+                                    rp = _REINDEX_CACHE[g.key] = reindex_params(g.node)
+                                if not rp:
+                                    continue
+                                gps = [a.arg for a in g.node.args.posonlyargs + g.node.args.args]
+                                passed = {gps[i] for i, a in enumerate(x.args) if i < len(gps) and isinstance(a, ast.Name) and a.id == lname} | \
+                                    {k.arg for k in x.keywords if isinstance(k.value, ast.Name) and k.value.id == lname}
+                                if passed & rp:
+                                    good.add(nd.id)
                         if isinstance(x, ast.Call) and call_name(x) == 'clear' and isinstance(x.func, ast.Attribute) and norm(x.func.value) == lname:
                             good.add(nd.id)
                         # the whole tree that owns the list is torn down (donor tree of a put): no link of it is read again
                         if isinstance(x, ast.Call) and call_name(x) == '_unmake_fst_tree' and not x.args and isinstance(x.func, ast.Attribute) and \
+                                isinstance(x.func.value, ast.Name) and x.func.value.id in closure[lname]:
+                            good.add(nd.id)
+                        # the node that owns the list is given another AST (`owner._set_ast(new)`): the list is no child list any more
+                        if isinstance(x, ast.Call) and call_name(x) == '_set_ast' and x.args and isinstance(x.func, ast.Attribute) and \
                                 isinstance(x.func.value, ast.Name) and x.func.value.id in closure[lname]:
                             good.add(nd.id)
             opnodes = [nd for nd in cfg.nodes if any(x is opn for x in subnodes(cfg, nd))]
@@ -572,7 +611,7 @@ def check_links(ctx, F):
                 if cfg.exit in reach:
                     okk = False
             fkey = fi.key.split('.', 1)[1].split('[')[0]
-            rv = R22_REVIEWED.get((fi.module, fkey, lname))
+            rv = R22_REVIEWED.get((fi.module, fkey, al.get(lname, lname)))
             ctx.check('R2.2b', okk or bool(rv), fi.module, fi.qualname, f'{norm(opn, 60)}',
                       f'elements of `{lname}` after the edit point shift, but some path to the function exit has no re-index loop over '
                       f'`{lname}`: their `.pfield.idx` (and everything navigating by it) stays at the old position', opn.lineno,
@@ -737,32 +776,55 @@ def check_memo(ctx):
             ctx.bad('R2.3c', m.name, '<module>', what, 'a memo outside `_cache` is not cleared by _touch / _offset and returns pre-edit answers',
                     n.lineno)
     # flush kernel
+    from ..struct import with_helpers
     for q, want in (('_touch', 1), ('_touchall', 3)):
         for fi in ctx.repo.funcs('fst_core', q):
-            cfg = CFG(fi.node)
-            clears = [nd for nd in cfg.nodes if any(isinstance(x, ast.Call) and isinstance(x.func, ast.Attribute) and
-                                                    ((call_name(x) == 'clear' and norm(x.func.value).endswith('._cache')) or
-                                                     (call_name(x) == '_touch' and q != '_touch'))
-                                                    for x in subnodes(cfg, nd))]
-            ctx.check('R2.3d', len(clears) >= want, fi.module, fi.qualname, 'clear-sites', f'{q} must clear the memo of every node it covers', fi.lineno,
-                      sample={'function': fi.key, 'clears': len(clears)})
-            par = parent_map(fi.node)
-            for nd in clears:
-                # only the documented parameter tests (children / self_ / parents) and plain walk loops may guard a clear
-                guards = []
-                cur = nd.ast
-                while cur in par and par[cur] is not fi.node:
-                    cur = par[cur]
-                    if isinstance(cur, ast.If):
-                        guards.append(norm(cur.test))
-                    elif isinstance(cur, ast.While):
-                        guards.append('while ' + norm(cur.test))
-                    elif isinstance(cur, ast.For):
-                        guards.append('for')
-                allowed = {'children', 'self_', 'parents', 'while stack', 'while (parent := parent.parent)'}
-                ctx.check('R2.3d', all(g in allowed for g in guards), fi.module, fi.qualname, f'{norm(nd.ast, 50)} guards={guards}',
-                          'a flush is conditional on something other than the requested scope: some covered node keeps its memo', nd.lineno,
-                          sample={'function': fi.key, 'clear': norm(nd.ast, 50), 'guards': guards})
+            n_clears = 0
+            for g in with_helpers(ctx.repo, fi):          # the function and the workers it hands `self` to
+                cfg = CFG(g.node)
+                clears = [nd for nd in cfg.nodes if any(isinstance(x, ast.Call) and isinstance(x.func, ast.Attribute) and
+                                                        ((call_name(x) == 'clear' and norm(x.func.value).endswith('._cache')) or
+                                                         (call_name(x) == '_touch' and q != '_touch'))
+                                                        for x in subnodes(cfg, nd))]
+                n_clears += len(clears)
+                par = parent_map(g.node)
+                params = {a.arg for a in g.node.args.posonlyargs + g.node.args.args + g.node.args.kwonlyargs}
+                stacks = {norm(x.func.value) for x in ast.walk(g.node) if isinstance(x, ast.Call) and isinstance(x.func, ast.Attribute) and
+                          x.func.attr in ('pop', 'extend', 'append')}
+
+                def scope_guard(t):
+                    """Only the requested scope (boolean mode parameters) and the plain walk loops may guard a clear."""
+                    while isinstance(t, ast.UnaryOp) and isinstance(t.op, ast.Not):
+                        t = t.operand
+                    if isinstance(t, ast.BoolOp):
+                        return all(scope_guard(v) for v in t.values)
+                    return isinstance(t, ast.Name) and t.id in params
+
+                def walk_loop(t):
+                    if isinstance(t, ast.Name) and t.id in stacks:                       # while stack:
+                        return True
+                    return isinstance(t, ast.NamedExpr) and isinstance(t.value, ast.Attribute) and t.value.attr == 'parent' and \
+                        norm(t.value.value) == t.target.id                                # while parent := parent.parent:
+                for nd in clears:
+                    guards, bad_guards = [], []
+                    cur = nd.ast
+                    while cur in par and par[cur] is not g.node:
+                        prev, cur = cur, par[cur]
+                        if isinstance(cur, ast.If):
+                            guards.append(norm(cur.test))
+                            if not scope_guard(cur.test):
+                                bad_guards.append(norm(cur.test))
+                        elif isinstance(cur, ast.While):
+                            guards.append('while ' + norm(cur.test))
+                            if not walk_loop(cur.test):
+                                bad_guards.append('while ' + norm(cur.test))
+                        elif isinstance(cur, ast.For):
+                            guards.append('for')
+                    ctx.check('R2.3d', not bad_guards, g.module, g.qualname, f'{norm(nd.ast, 50)} guards={guards}',
+                              f'a flush is conditional on something other than the requested scope ({bad_guards[:2]}): some covered node keeps its memo',
+                              nd.lineno, sample={'function': g.key, 'clear': norm(nd.ast, 50), 'guards': guards})
+            ctx.check('R2.3d', n_clears >= want, fi.module, fi.qualname, 'clear-sites', f'{q} must clear the memo of every node it covers', fi.lineno,
+                      sample={'function': fi.key, 'clears': n_clears})
     for fi in ctx.repo.funcs('fst', 'FST.__new__'):
         cfg = CFG(fi.node)
         resets = [nd for nd in cfg.nodes if nd.kind == 'stmt' and isinstance(nd.ast, ast.Assign) and norm(nd.ast.targets[0]) == 'self._cache']
@@ -871,6 +933,26 @@ def check_views(ctx):
         if good and seen_true:
             cond_refresh.add(name)
     n = 0
+    # a private worker of the class (`self._worker(...)`) that every call site enters with freshly clipped indices starts refreshed
+    def unrefreshed_of(fi):
+        cfg = cfgs.setdefault(id(fi.node), CFG(fi.node))
+        rn = refresh_nodes(cfg)
+        re_ = refresh_edges(cfg)
+        return cfg, rn, cfg.reachable(cfg.entry, lambda n_, lab, s: (n_.id, lab) not in re_, stop=rn) | {cfg.entry}
+    entered_refreshed = set()
+    for name, fis in methods.items():
+        if not name.startswith('_') or name.startswith('__') or name in refresh or name in cond_refresh:
+            continue
+        sites = []
+        for cname, cfis in methods.items():
+            for cfi in cfis:
+                ccfg, crn, cun = unrefreshed_of(cfi)
+                for nd in ccfg.nodes:
+                    for x in subnodes(ccfg, nd):
+                        if isinstance(x, ast.Call) and isinstance(x.func, ast.Attribute) and x.func.attr == name and norm(x.func.value) == 'self':
+                            sites.append(nd.id not in cun or nd.id in crn)
+        if sites and all(sites):
+            entered_refreshed.add(name)
     for name, fis in methods.items():
         if name in ('__init__', '_base_indices'):
             continue
@@ -880,6 +962,8 @@ def check_views(ctx):
             rn = refresh_nodes(cfg)
             re_ = refresh_edges(cfg)
             unrefreshed = cfg.reachable(cfg.entry, lambda n_, lab, s: (n_.id, lab) not in re_, stop=rn) | {cfg.entry}
+            if name in entered_refreshed:
+                unrefreshed = set()
             for nd in cfg.nodes:
                 for x in subnodes(cfg, nd):
                     if isinstance(x, ast.Attribute) and x.attr in ('_start', '_stop') and norm(x.value) == 'self' and isinstance(x.ctx, ast.Load):
@@ -900,7 +984,7 @@ def check_views(ctx):
                         ctx.check('R2.4', ok, fi.module, fi.qualname, norm(x, 60),
                                   'a raw view index is adjusted without having been re-clipped to the current field length first', x.lineno,
                                   sample={'method': fi.key, 'read': norm(x.target)})
-    if n < 10:
+    if n < 5:
         raise AnalysisError(f'only {n} raw view index reads found')
 
 
